@@ -2,6 +2,10 @@ package server
 
 import (
 	"strconv"
+
+	"github.com/mmcloughlin/geohash"
+	"github.com/tidwall/geojson"
+	"github.com/tidwall/geojson/geometry"
 )
 
 // C01 (sequential keyspace model): a differential harness. The real server (handleInputCommand and the real
@@ -19,6 +23,7 @@ type vmObj struct {
 	val    string
 	fields []vmField // sorted by name, never a zero value
 	ex     bool
+	geo    int // index into vmPointArgs (geometries), -1 for strings
 }
 
 type vmCol struct {
@@ -144,8 +149,23 @@ func vmGetField(fs []vmField, name string) string {
 func vmBulk(s string) string { return "$" + strconv.Itoa(len(s)) + "\r\n" + s + "\r\n" }
 func vmInt(n int) string     { return ":" + strconv.Itoa(n) + "\r\n" }
 
-var vmPointArgs = [][2]string{{"33", "-115"}, {"1", "2"}}
-var vmPointJSON = []string{`{"type":"Point","coordinates":[-115,33]}`, `{"type":"Point","coordinates":[2,1]}`}
+// geometries a SET may carry, and what GET prints for them (the documented reading of each form)
+var vmPointArgs = [][]string{
+	{"POINT", "33", "-115"}, {"POINT", "1", "2"}, {"POINT", "33", "-115", "5"}, {"BOUNDS", "1", "2", "3", "4"},
+	{"OBJECT", `{"type":"LineString","coordinates":[[1,1],[2,2]]}`}, {"HASH", "9my5xp7"},
+}
+var vmPointJSON = []string{`{"type":"Point","coordinates":[-115,33]}`, `{"type":"Point","coordinates":[2,1]}`,
+	`{"type":"Point","coordinates":[-115,33,5]}`, `{"type":"Polygon","coordinates":[[[2,1],[4,1],[4,3],[2,3],[2,1]]]}`,
+	`{"type":"LineString","coordinates":[[1,1],[2,2]]}`, vmHashJSON("9my5xp7")}
+
+// GET key id POINT for the first three geometries: [lat, lon] or [lat, lon, z]
+var vmPointGET = []string{"*2\r\n$2\r\n33\r\n$4\r\n-115\r\n", "*2\r\n$1\r\n1\r\n$1\r\n2\r\n", "*3\r\n$2\r\n33\r\n$4\r\n-115\r\n$1\r\n5\r\n"}
+
+// HASH is the point the geohash decodes to
+func vmHashJSON(h string) string {
+	lat, lon := geohash.Decode(h)
+	return geojson.NewPoint(geometry.Point{X: lon, Y: lat}).String()
+}
 var vmKeys = []string{"a", "b", "c"}
 var vmFieldNames = []string{"f", "g"}
 var vmFieldVals = []string{"0", "1", "x"}
@@ -169,6 +189,7 @@ const (
 	vmPersist
 	vmJset
 	vmJdel
+	vmFset2
 	vmNumOps
 )
 
@@ -177,6 +198,7 @@ type vmCmd struct {
 	key, key2  string
 	id         string
 	fname, val string
+	val2       string
 	p          int
 	pattern    string
 }
@@ -185,21 +207,23 @@ func (c vmCmd) args() []string {
 	pt := vmPointArgs[c.p]
 	switch c.op {
 	case vmSetPoint:
-		return []string{"SET", c.key, c.id, "POINT", pt[0], pt[1]}
+		return append([]string{"SET", c.key, c.id}, pt...)
 	case vmSetString:
 		return []string{"SET", c.key, c.id, "STRING", c.val}
 	case vmSetFieldPoint:
-		return []string{"SET", c.key, c.id, "FIELD", c.fname, c.val, "POINT", pt[0], pt[1]}
+		return append([]string{"SET", c.key, c.id, "FIELD", c.fname, c.val}, pt...)
 	case vmSetNX:
-		return []string{"SET", c.key, c.id, "NX", "POINT", pt[0], pt[1]}
+		return append([]string{"SET", c.key, c.id, "NX"}, pt...)
 	case vmSetXX:
 		return []string{"SET", c.key, c.id, "XX", "STRING", c.val}
 	case vmSetEX:
-		return []string{"SET", c.key, c.id, "EX", "100", "POINT", pt[0], pt[1]}
+		return append([]string{"SET", c.key, c.id, "EX", "100"}, pt...)
 	case vmFset:
 		return []string{"FSET", c.key, c.id, c.fname, c.val}
 	case vmFsetXX:
 		return []string{"FSET", c.key, c.id, "XX", c.fname, c.val}
+	case vmFset2:
+		return []string{"FSET", c.key, c.id, "f", c.val, "g", c.val2}
 	case vmDel:
 		return []string{"DEL", c.key, c.id}
 	case vmPdel:
@@ -239,14 +263,14 @@ func (m *vmDB) apply(c vmCmd) (reply string, ok bool) {
 		if c.op == vmSetXX && old == nil {
 			return "$-1\r\n", true
 		}
-		o := vmObj{id: c.id}
+		o := vmObj{id: c.id, geo: -1}
 		if old != nil {
 			o.fields = old.fields
 		}
 		if c.op == vmSetString || c.op == vmSetXX {
 			o.str, o.val = true, c.val
 		} else {
-			o.val = vmPointJSON[c.p]
+			o.val, o.geo = vmPointJSON[c.p], c.p
 		}
 		if c.op == vmSetFieldPoint {
 			o.fields = vmSetField(o.fields, c.fname, c.val)
@@ -269,6 +293,23 @@ func (m *vmDB) apply(c vmCmd) (reply string, ok bool) {
 		}
 		old.fields = vmSetField(old.fields, c.fname, c.val)
 		return vmInt(1), true
+	case vmFset2:
+		if m.col(c.key) < 0 {
+			return vmErrKey, true
+		}
+		if old == nil {
+			return vmErrID, true
+		}
+		n := 0
+		if vmGetField(old.fields, "f") != c.val {
+			old.fields = vmSetField(old.fields, "f", c.val)
+			n++
+		}
+		if vmGetField(old.fields, "g") != c.val2 {
+			old.fields = vmSetField(old.fields, "g", c.val2)
+			n++
+		}
+		return vmInt(n), true
 	case vmDel:
 		if m.del(c.key, c.id) {
 			return vmInt(1), true
@@ -327,7 +368,7 @@ func (m *vmDB) apply(c vmCmd) (reply string, ok bool) {
 		return vmInt(1), true
 	case vmJset:
 		if old == nil {
-			m.put(c.key, vmObj{id: c.id, str: true, val: `{"n":5}`})
+			m.put(c.key, vmObj{id: c.id, str: true, val: `{"n":5}`, geo: -1})
 			return "+OK\r\n", true
 		}
 		if !old.str {
@@ -450,6 +491,9 @@ func vhCompareReads(s *Server, m *vmDB, probeIDs []string) {
 				}
 				vassert("C01.M.fexists", vhReply(s, "FEXISTS", key, id, fn) == want)
 			}
+			if !o.str && o.geo >= 0 && o.geo < len(vmPointGET) {
+				vassert("C01.M.get_point_form", vhReply(s, "GET", key, id, "POINT") == vmPointGET[o.geo])
+			}
 			if o.str && (o.val == `{"n":1}` || o.val == `{"n":5}`) {
 				vassert("C01.M.jget", vhReply(s, "JGET", key, id, "n") == vmBulk(o.val[5:6]))
 			}
@@ -535,17 +579,23 @@ func vhModelCommand() vmCmd {
 	c.id = vnondetStringN(1)
 	switch c.op {
 	case vmSetPoint, vmSetNX, vmSetEX:
-		c.p = vchoose(2)
+		c.p = vchoose(len(vmPointArgs))
+	case vmFset2:
+		c.val = vmFieldVals[vchoose(3)]
+		c.val2 = vmFieldVals[vchoose(3)]
 	case vmSetString, vmSetXX:
 		c.val = []string{"w", `{"n":1}`}[vchoose(2)]
 	case vmSetFieldPoint, vmFset, vmFsetXX:
 		c.fname = vmFieldNames[vchoose(2)]
 		c.val = vmFieldVals[vchoose(3)]
+		if c.op == vmSetFieldPoint {
+			c.p = vchoose(len(vmPointArgs))
+		}
 	}
 	return c
 }
 
-//verif:cfg b_datasets=5(empty|point+field|deadline+string+field|JSON_string+field+deadline,2_collections|3_objects_2_collections) quick.b_commands=1 thorough.b_commands=2 b_operations=18(SET_point/string/FIELD/NX/XX/EX,FSET,FSET_XX,DEL,PDEL,DROP,RENAME,RENAMENX,FLUSHDB,EXPIRE,PERSIST,JSET,JDEL) b_ids=one_symbolic_byte b_collections=a|b(|c_as_RENAME_target) b_reads_after=KEYS,TYPE,SCAN_IDS,GET_WITHFIELDS,TTL,EXISTS,FEXISTS,FGET,JGET ignorego=1 maxpaths=2000000
+//verif:cfg b_datasets=5(empty|point+field|deadline+string+field|JSON_string+field+deadline,2_collections|3_objects_2_collections) quick.b_commands=1 thorough.b_commands=2 b_operations=19(SET_point/point+z/BOUNDS/HASH/GeoJSON/string/FIELD/NX/XX/EX,FSET,FSET_XX,FSET_two_fields,DEL,PDEL,DROP,RENAME,RENAMENX,FLUSHDB,EXPIRE,PERSIST,JSET,JDEL) b_ids=one_symbolic_byte b_collections=a|b(|c_as_RENAME_target) b_reads_after=KEYS,TYPE,SCAN_IDS,GET_WITHFIELDS,TTL,EXISTS,FEXISTS,FGET,JGET ignorego=1 maxpaths=2000000
 func VH_C01_model() {
 	s := vhModelServer()
 	m := &vmDB{}
